@@ -51,6 +51,14 @@ class Compiled:
         self.cp = CProg(self.formula)
         self.cp.pcones = list(self.pcalls)
         self.iface = self.r.interface(self.formula)
+        bycol = {}
+        for nm, c in self.iface.items():
+            bycol.setdefault(c, []).append(nm)
+        self.collisions = sorted(sorted(v) for v in bycol.values() if len(v) > 1)
+        if self.collisions:
+            # the SMT obligations quantify over the named decisions / rule coefficients: two names on one column would make the
+            # oracle as restricted as the program (a silent blind spot), so this is an error of the read-back or of the compiler
+            raise HarnessError('interface read back through get() is not injective: %s' % self.collisions[:3])
         self.iface['t'] = 0
         self.usets = {k: USet(v, self.o.znames) for k, v in self.o.sets.items()}
         if self.cp.obj != [Fraction(1)] + [Fraction(0)] * (self.cp.n - 1):
